@@ -36,3 +36,30 @@ package mutation
 //@              ? rjc.Spec.Schedule.LastUpdated == old(rjc.Spec.Schedule.LastUpdated)
 //@              : ns(rjc.Spec.Schedule.LastUpdated.Time) == clock)
 //@   ensures [C16] no-schedule-untouched: rjc.Spec.Schedule == old(rjc.Spec.Schedule) && clock >= old(clock)
+
+//@ func Mutator.MutateTaskTemplate
+//@   tags C16
+//@   requires spec != nil
+//@   modifies heap(v1alpha1.PodTemplateSpec)
+//@   ensures [C16] restart-policy-default: spec.Pod != nil ==> spec.Pod.Spec.RestartPolicy == (old(spec.Pod.Spec.RestartPolicy) == "" ? corev1.RestartPolicyNever : old(spec.Pod.Spec.RestartPolicy))
+//@   ensures [C16] pod-kept: spec.Pod == old(spec.Pod)
+
+//@ func Mutator.MutateJobTemplateSpec
+//@   tags C16
+//@   requires m != nil && spec != nil
+//@   modifies spec.MaxAttempts, spec.TaskPendingTimeoutSeconds, heap(v1alpha1.ParallelismSpec), heap(v1alpha1.PodTemplateSpec)
+//@   ensures [C16] max-attempts-default: spec.MaxAttempts != nil && (old(spec.MaxAttempts) != nil ? spec.MaxAttempts == old(spec.MaxAttempts) : *spec.MaxAttempts == 1)
+//@   ensures [C16] pending-timeout-kept-if-set: old(spec.TaskPendingTimeoutSeconds) != nil ==> spec.TaskPendingTimeoutSeconds == old(spec.TaskPendingTimeoutSeconds)
+//@   ensures [C16] completion-strategy-default: spec.Parallelism != nil ==> spec.Parallelism.CompletionStrategy == (old(spec.Parallelism.CompletionStrategy) == "" ? v1alpha1.AllSuccessful : old(spec.Parallelism.CompletionStrategy))
+//@   ensures [C16] restart-policy-default: mutateTaskTemplate && spec.TaskTemplate.Pod != nil ==>
+//@        spec.TaskTemplate.Pod.Spec.RestartPolicy == (old(spec.TaskTemplate.Pod.Spec.RestartPolicy) == "" ? corev1.RestartPolicyNever : old(spec.TaskTemplate.Pod.Spec.RestartPolicy))
+//@   ensures [C16] structure-kept: spec.Parallelism == old(spec.Parallelism) && spec.TaskTemplate.Pod == old(spec.TaskTemplate.Pod)
+
+//@ func Mutator.MutateJob
+//@   tags C16
+//@   requires m != nil && rj != nil
+//@   modifies rj.Spec.Type, rj.Spec.TTLSecondsAfterFinished, rj.Spec.Template, heap(v1alpha1.JobTemplate), heap(v1alpha1.ParallelismSpec), heap(v1alpha1.PodTemplateSpec)
+//@   ensures [C16] type-default: len(result.Errors) == 0 ==> rj.Spec.Type == (old(rj.Spec.Type) == "" ? v1alpha1.JobTypeAdhoc : old(rj.Spec.Type))
+//@   ensures [C16] ttl-kept-if-set: old(rj.Spec.TTLSecondsAfterFinished) != nil ==> rj.Spec.TTLSecondsAfterFinished == old(rj.Spec.TTLSecondsAfterFinished)
+//@   ensures [C16] template-present-with-defaults: len(result.Errors) == 0 ==> rj.Spec.Template != nil && rj.Spec.Template.MaxAttempts != nil
+//@        && (old(rj.Spec.Template) != nil && old(rj.Spec.Template.MaxAttempts) != nil ? rj.Spec.Template.MaxAttempts == old(rj.Spec.Template.MaxAttempts) : *rj.Spec.Template.MaxAttempts == 1)
